@@ -61,6 +61,30 @@ def setup(job):
         if p.get("core"):
             PKG_DIRS.append(os.path.join(root, *p["core"].split(".")) + os.sep)
     sys.addaudithook(_audit)
+    if job.get("reach") and hasattr(sys, "monitoring"):
+        _reach_start([os.path.join(root, *(p.get("core") or p["pkg"] + ".core").split(".")) + os.sep for p in job["packages"]])
+
+
+_REACH = {}
+
+
+def _reach_start(prefixes):
+    """First execution of every line of the runtime files copied into the emitted core packages (evidence only)."""
+    mon = sys.monitoring
+    try:
+        mon.use_tool_id(mon.COVERAGE_ID, "vmon-reach")
+    except ValueError:
+        return
+    pre = tuple(prefixes)
+
+    def on_line(code, line):
+        fn = code.co_filename
+        if fn.startswith(pre):
+            _REACH.setdefault(fn, set()).add(line)
+        return mon.DISABLE
+
+    mon.register_callback(mon.COVERAGE_ID, mon.events.LINE, on_line)
+    mon.set_events(mon.COVERAGE_ID, mon.events.LINE)
 
 
 def exc_info(e):
@@ -1051,6 +1075,8 @@ def main():
         out["generator_importable"] = True
     except ImportError:
         pass
+    if _REACH:
+        out["reach"] = {f: sorted(v) for f, v in _REACH.items()}
     open(sys.argv[2], "w").write(json.dumps(out, default=repr))
 
 
